@@ -73,3 +73,10 @@ package paillier
 //@   ensures [C14.domain] (err == nil) <==> (0 <= val(c) && val(c) < nsq(privateKey.PublicKey) && gcd(val(c), nsq(privateKey.PublicKey)) <= 1)
 //@   ensures err != nil ==> m == nil
 //@   ensures [C14.formula] err == nil ==> (m != nil && fresh(m) && val(m) == (((powmod(val(c), val(privateKey.LambdaN), nsq(privateKey.PublicKey)) - 1) / val(privateKey.PublicKey.N)) * invmod((powmod(val(privateKey.PublicKey.N) + 1, val(privateKey.LambdaN), nsq(privateKey.PublicKey)) - 1) / val(privateKey.PublicKey.N), val(privateKey.PublicKey.N))) % val(privateKey.PublicKey.N))
+
+//@ func (Proof).Verify
+//@   trusted goroutines, select and GenerateXs (floats, channels) are outside the generator subset; contract from reading the code: total on non-nil arguments (after fix 5369561), writes nothing the caller can see
+//@   props C06 C11
+//@   requires pkN != nil && k != nil && ecdsaPub != nil && wfPoint(ecdsaPub)
+//@   requires [proof-entries-present] forall i in 0..13 :: pf[i] != nil
+//@   pure
